@@ -43,7 +43,7 @@ for d in sorted(glob.glob(f'{root}/seeded/*')):
         continue
     summ = esc(meta.get('summary') or '')[:230]
     conf = meta.get('confirmed_by_me') or {}
-    hist = esc(next((v for k, v in conf.items() if k.startswith('check_')), ''))[:260]
+    hist = esc(meta.get('history') or next((v for k, v in conf.items() if k.startswith('check_')), ''))[:330]
     rows.append(f"| {name} | {summ} | {status.get(name, '')} | {hist} |")
 block('SEED_TABLE', '\n'.join(rows))
 open(f'{root}/DESIGN.md', 'w').write(s)
